@@ -384,6 +384,10 @@ def stepEffect (st : Store) : List String → Option (Effect × String)
   | ["eq", i, j] => do
     let i ← parseNat? i; let j ← parseNat? j; let a ← st[i]?; let b ← st[j]?
     pure (Effect.keep, "ok " ++ showBool (a.eq b))
+  | ["eqnan", i, j, na, nb] => do
+    let i ← parseNat? i; let j ← parseNat? j; let a ← st[i]?; let b ← st[j]?
+    let na ← parseNat? na; let nb ← parseNat? nb
+    pure (Effect.keep, "ok " ++ showBool (a.eqNaN b (na != 0) (nb != 0)))
   | ["eqold", i, j] => do
     let i ← parseNat? i; let j ← parseNat? j; let a ← st[i]?; let b ← st[j]?
     pure (Effect.keep, "ok " ++ showBool (a.eqOld b))
